@@ -29,7 +29,10 @@ XSDString == "http://www.w3.org/2001/XMLSchema#string"
 (* HexTuples may identify simple literals with xsd:string (RDF 1.1); nothing else may *)
 NormLit(x, fmt) == IF fmt = "hext" /\ x.k = "lit" /\ x.dt = XSDString THEN [x EXCEPT !.dt = ""] ELSE x
 Norm3(g, fmt) == {<<NormLit(t[1], fmt), t[2], NormLit(t[3], fmt)>> : t \in g}
-Norm4(q, fmt) == {<<NormLit(t[1], fmt), t[2], NormLit(t[3], fmt), t[4]>> : t \in q}
+(* TriX names graphs with <uri> only: a blank-node-named graph is written as an anonymous graph, so the identity of its
+   name with a blank node used inside triples cannot be expressed - for trix the graph-name occurrence is a separate node *)
+GName(x, fmt) == IF fmt = "trix" /\ x.k = "bnode" THEN [k |-> "bnode", v |-> x.v \o "#graph-name"] ELSE x
+Norm4(q, fmt) == {<<NormLit(t[1], fmt), t[2], NormLit(t[3], fmt), GName(t[4], fmt)>> : t \in q}
 
 Outcome(e) == IF e.res = "timeout" THEN "Terminates"
               ELSE IF e.res = "serialize_raised" THEN "SerializeRaised"
